@@ -134,6 +134,40 @@ pub static CMD_ENV: std::sync::atomic::AtomicU8 = std::sync::atomic::AtomicU8::n
 /// 3 = newer than everything of the round; written once before round 0 or again before every round.
 thread_local! {
     pub static XENV: std::cell::Cell<u32> = std::cell::Cell::new(0);
+    /// consistent-values mode of the state engine: whatever option a terminal gets, the state
+    /// written to it is that terminal's member of a tuple that already satisfies the device's
+    /// constraint exactly ((X, -X); (X, ratio*X); all X; (X, Y, X+Y)), so rounds differ only in
+    /// presence and timestamps. "Already consistent" is the natural place for a shortcut that
+    /// skips the projection - and with it the restamping with the newest contributing time.
+    pub static CONSISTENT: std::cell::Cell<bool> = std::cell::Cell::new(false);
+    /// zero-payload mode: every written state is (0, 0, 0) and the two commands are Position(0) and
+    /// Velocity(0) - payloads that coincide with what placeholder / sentinel data look like
+    pub static ZERO: std::cell::Cell<bool> = std::cell::Cell::new(false);
+}
+fn cmd_for(is_a: bool) -> Command {
+    if ZERO.with(|c| c.get()) {
+        return if is_a { Command::Position(0.0) } else { Command::Velocity(0.0) };
+    }
+    if is_a { CA } else { CB }
+}
+fn state_for(kind: Kind, i: usize, is_a: bool) -> State {
+    if ZERO.with(|c| c.get()) {
+        return State::new_raw(0.0, 0.0, 0.0);
+    }
+    if !CONSISTENT.with(|c| c.get()) {
+        return if is_a { SA } else { SB };
+    }
+    let (x, y) = (SA, SB);
+    match kind {
+        Kind::Invert => if i == 0 { x } else { -x },
+        Kind::Gear(r) | Kind::GearQ(r) => if i == 0 { x } else { x * r },
+        Kind::Axle(_) => x,
+        Kind::Diff(_) => match i {
+            0 => x,
+            1 => y,
+            _ => x + y,
+        },
+    }
 }
 pub const XENV_CODES: u32 = 24;
 fn xenv() -> Option<(usize, usize, bool)> {
@@ -281,8 +315,8 @@ pub fn run_rounds(kind: Kind, mask: u32, rounds: &[Vec<usize>], mode: Mode) -> V
             let target: &Term = if mask >> i & 1 == 1 && o < 5 { &xs[i] } else { dev.term(i) };
             let t = Time(opt_time(k, i, o));
             match mode {
-                Mode::State => target.borrow_mut().set(Datum::new(t, if opt_is_a(o) { SA } else { SB })).unwrap(),
-                Mode::Command => target.borrow_mut().set(Datum::new(t, if opt_is_a(o) { CA } else { CB })).unwrap(),
+                Mode::State => target.borrow_mut().set(Datum::new(t, state_for(kind, i, opt_is_a(o)))).unwrap(),
+                Mode::Command => target.borrow_mut().set(Datum::new(t, cmd_for(opt_is_a(o)))).unwrap(),
             }
         }
         let rd = |t: &Term| if mode == Mode::State { read_s(t) } else { read_c(t) };
@@ -521,7 +555,7 @@ pub fn describe(kind: Kind, mask: u32, rounds: &[Vec<usize>], mode: Mode) -> Str
         "{:?} connected-mask {:#b}{} rounds [{}]",
         kind,
         mask,
-        xenv_show(),
+        format!("{}{}", xenv_show(), if ZERO.with(|c| c.get()) { " [zero payloads: states (0,0,0), commands A = Position(0), B = Velocity(0)]" } else if CONSISTENT.with(|c| c.get()) { " [consistent values: every written state is the terminal's member of a tuple satisfying the constraint exactly]" } else { "" }),
         rounds
             .iter()
             .enumerate()
@@ -772,6 +806,74 @@ fn explore_envs(e1: &mut Eng, e2: &mut Eng, kinds2: &[Kind], deep: bool, mode: M
                 e.transitions += judge_rounds(kind, mask, &rounds, mode, time_only, e);
             }
             XENV.with(|x| x.set(0));
+        });
+    }
+}
+
+/// Consistent-values pass (see `CONSISTENT`): every round sequence of the given depth for every
+/// device and connection subset, one parallel loop over (device, subset) jobs.
+fn explore_consistent(e1: &mut Eng, e2: &mut Eng, kinds2: &[Kind], deep: bool, time_only: bool, budget: Budget) {
+    explore_flagged(e1, e2, kinds2, deep, Mode::State, false, time_only, budget)
+}
+/// The same loop for the consistent-values mode (zero = false) and the zero-payload mode (zero = true).
+fn explore_flagged(e1: &mut Eng, e2: &mut Eng, kinds2: &[Kind], deep: bool, mode: Mode, zero: bool, time_only: bool, budget: Budget) {
+    let mut jobs1: Vec<(Kind, u32, usize)> = Vec::new();
+    let mut jobs2: Vec<(Kind, u32, usize)> = Vec::new();
+    for &k in kinds2 {
+        for m in all_masks(2) {
+            jobs1.push((k, m, if deep { 3 } else { 2 }));
+        }
+    }
+    for n in 1..=4usize {
+        for m in all_masks(n) {
+            jobs2.push((Kind::Axle(n), m, if n <= 2 || (n == 3 && deep) { 2 } else { 1 }));
+        }
+    }
+    for d in 0..4u8 {
+        for m in all_masks(3) {
+            jobs2.push((Kind::Diff(d), m, 2));
+        }
+    }
+    for (e, jobs) in [(e1, &jobs1), (e2, &jobs2)] {
+        // split each job's sequence space into slices so that the big ones spread over the cores
+        let mut items: Vec<(usize, u64, u64)> = Vec::new();
+        for (j, &(kind, _, depth)) in jobs.iter().enumerate() {
+            let total = ipow(ipow(NOPT as u64, kind.n()), depth);
+            let step = 4096u64;
+            let mut lo = 0;
+            while lo < total {
+                items.push((j, lo, (lo + step).min(total)));
+                lo += step;
+            }
+        }
+        par(e, items.len() as u64, 1, budget, |it, e| {
+            let (j, lo, hi) = items[it as usize];
+            let (kind, mask, depth) = jobs[j];
+            let n = kind.n();
+            let per_round = ipow(NOPT as u64, n);
+            if zero {
+                ZERO.with(|c| c.set(true));
+            } else {
+                CONSISTENT.with(|c| c.set(true));
+            }
+            let mut seq = vec![0usize; depth];
+            for idx in lo..hi {
+                decode(idx, per_round, &mut seq);
+                let rounds: Vec<Vec<usize>> = seq
+                    .iter()
+                    .map(|&code| {
+                        let mut o = vec![0usize; n];
+                        decode(code as u64, NOPT as u64, &mut o);
+                        o
+                    })
+                    .collect();
+                e.states += new_nodes(idx, per_round, depth);
+                e.executions += 1;
+                e.max_depth = e.max_depth.max(depth as u64);
+                e.transitions += judge_rounds(kind, mask, &rounds, mode, time_only, e);
+            }
+            CONSISTENT.with(|c| c.set(false));
+            ZERO.with(|c| c.set(false));
         });
     }
 }
@@ -1168,6 +1270,15 @@ fn state_engines(ctx: &Ctx, time_only: bool, tag: &str) -> Vec<Eng> {
         explore(&mut e2, Kind::Diff(3), 1, Mode::State, time_only, budget);
     }
     CMD_ENV.store(0, std::sync::atomic::Ordering::SeqCst);
+    // states that already satisfy the constraint
+    explore_consistent(&mut e1, &mut e2, &kinds, deep, time_only, budget);
+    e1.notes.push("consistent-values pass: the same round sequences (2-terminal devices depth 2, thorough 3; Axle<1,2> depth 2, Axle<3,4> depth 1 (thorough Axle<3> depth 2); differentials in all four trust modes depth 2) with every written state taken from a tuple that satisfies the device's constraint exactly, so that rounds differ only in presence and timestamps: states that already satisfy the constraint are left unchanged in value AND are stamped with the newest contributing time".into());
+    // zero payloads, with ordinary timestamps and with the timestamps at the two ends of the i64 range
+    explore_flagged(&mut e1, &mut e2, &kinds, false, Mode::State, true, time_only, budget);
+    TIME_SPLIT.store(true, std::sync::atomic::Ordering::SeqCst);
+    explore_flagged(&mut e1, &mut e2, &kinds, false, Mode::State, true, time_only, budget);
+    TIME_SPLIT.store(false, std::sync::atomic::Ordering::SeqCst);
+    e1.notes.push("zero-payload pass: the same round sequences (depths as in the consistent-values pass, quick bounds) with every written state equal to (0,0,0), once with ordinary timestamps and once with the oldest timestamp equal to i64::MIN and the newer ones just below i64::MAX: data that look like a placeholder (zero payload, extreme stamp) are data".into());
     // states in the presence of commands (24 cross-kind environments)
     explore_envs(&mut e1, &mut e2, &kinds, deep, Mode::State, time_only, budget);
     e1.notes.push("cross-kind environments: 24 more passes (2-terminal devices and Axle<1,2> depth 2, Axle<3,4> and differentials depth 1; thorough Axle<3> depth 2) with commands present at {terminal 0, the last terminal, all terminals} stamped {1e9+7 ns, older than the round, the round's shared time, newer than the round}, written {once before round 0, before every round}: the states written by update() and their timestamps must not depend on them".into());
@@ -1253,6 +1364,16 @@ fn command_engines(ctx: &Ctx, time_only: bool, tag: &str) -> Vec<Eng> {
         }
         explore_twins(&mut e1, Kind::Axle(3), Kind::Axle(3), 1, Mode::Command, budget);
         e1.notes.push("twins: two devices alive at once, every 2-round command sequence of one against 6 partner sequences of the other, in both orders, run in lockstep must behave as each does alone".into());
+    }
+    // zero payloads (Position(0) / Velocity(0)), ordinary and extreme timestamps
+    {
+        let mut scratch = e1.fork();
+        explore_flagged(&mut e1, &mut scratch, &kinds, false, Mode::Command, true, time_only, budget);
+        TIME_SPLIT.store(true, std::sync::atomic::Ordering::SeqCst);
+        explore_flagged(&mut e1, &mut scratch, &kinds, false, Mode::Command, true, time_only, budget);
+        TIME_SPLIT.store(false, std::sync::atomic::Ordering::SeqCst);
+        e1.merge(scratch);
+        e1.notes.push("zero-payload pass: the same round sequences (2-terminal devices and Axle<1,2> depth 2, Axle<3,4> depth 1, differentials depth 2) with the two commands Position(0) and Velocity(0), once with ordinary timestamps and once with the oldest timestamp equal to i64::MIN and the newer ones just below i64::MAX: a command that looks like a placeholder (zero value, i64::MIN stamp) is a command and must be relayed".into());
     }
     // commands in the presence of states (24 cross-kind environments)
     {
